@@ -7,7 +7,7 @@ Require Import MPSV.Inline.InlineModel MPSV.Inline.InlineDecl MPSV.Inline.Inline
                MPSV.Inline.InlineFormalMul MPSV.Inline.InlineFormalCoeff MPSV.Inline.InlineLRSound MPSV.Inline.InlineLRComplete
                MPSV.Inline.InlineLRAll
                MPSV.Inline.LexModel MPSV.Inline.LexSpec MPSV.Inline.Gen.LexerGen MPSV.Inline.LexPipeline MPSV.Inline.LexPipelineProofs
-               MPSV.Inline.LexAgree MPSV.Inline.LexLiteral MPSV.Inline.LexLiteralScan.
+               MPSV.Inline.LexAgree MPSV.Inline.LexLiteralModel MPSV.Inline.LexLiteral MPSV.Inline.LexLiteralScan.
 Require MPSV.PolFile.Chars MPSV.PolFile.DecRatModel.
 Import ListNotations.
 
@@ -298,6 +298,12 @@ Theorem C11_flex_scanner_loop :
 Proof. split; [exact tokenize_iff | exact tokenize_total]. Qed.
 Print Assumptions C11_flex_scanner_loop.
 
+Example C11_flex_scanner_example :   (* "2x #": RATIONAL "2", MONOMIAL "x", the blank is skipped, '#' comes back as its own character code *)
+  tokenize (with_default lexer_gen) (list_ascii_of_string "2x #") =
+    Some [RTok "RATIONAL" true ["2"%char]; RTok "MONOMIAL" true ["x"%char]; RChr "#"%char] /\
+  flex_tokens (with_default lexer_gen) (list_ascii_of_string "2x #") [RTok "RATIONAL" true ["2"%char]; RTok "MONOMIAL" true ["x"%char]; RChr "#"%char].
+Proof. split; [vm_compute; reflexivity | apply tokenize_iff; vm_compute; reflexivity]. Qed.
+
 (* The rules read from tokenizer.l are the rules the proofs below are about (tokenizer.l with fixes/C11_newline.patch). *)
 Theorem C11_lexer_shape : lexer_gen = expected_lexer.
 Proof. exact lexer_shape. Qed.
@@ -384,6 +390,12 @@ Theorem C11_scanner_literal_values : forall l rts, tokenize (with_default lexer_
   exists n d b, t = TNum n d b /\ monomial_coeff text = Some (Qred (Z.of_N n # d)) /\ text_value text (Qred (Z.of_N n # d)).
 Proof. rewrite lexer_shape. exact scanner_literal_values. Qed.
 Print Assumptions C11_scanner_literal_values.
+Example C11_scanner_literal_example :   (* the FLOATING_POINT token of "x+12.50e-1i": payload 1250/1000 = 5/4 = value of the text = what the action stores *)
+  raw_tokens_string "x+12.50e-1i" = Some [RTok "MONOMIAL" true ["x"%char]; RTok "PLUS" false ["+"%char];
+                                           RTok "FLOATING_POINT" true (list_ascii_of_string "12.50e-1"); RTok "IMAGINARY_UNIT" false ["i"%char]] /\
+  conv_token (RTok "FLOATING_POINT" true (list_ascii_of_string "12.50e-1")) = Some (Some ("FLOATING_POINT"%string, TNum 1250 1000 false)) /\
+  monomial_coeff (list_ascii_of_string "12.50e-1") = Some (5 # 4)%Q.
+Proof. vm_compute. repeat split. Qed.
 Theorem C11_zero_denominator_test : forall d2, MPSV.PolFile.DecRatModel.all_digits d2 ->
   (MPSV.PolFile.Chars.digits_val d2 = 0%N <-> forallb (fun c => Ascii.eqb c "0"%char) d2 = true).
 Proof. exact zero_denominator_iff. Qed.
